@@ -124,7 +124,7 @@ theorem parse_marshal_with_C01 (na : Char → Bool) (maxLen : Nat) (st st' : St)
     (hoob : a.oobFDs = some [])
     (hts : allWF ts = true) (hitems : Code.topItems pv = .ok items)
     (hrep : Code.RepFields fdl vs true ts items 0 fdl.length) (hkeys : Code.KeysOKList items)
-    (henc : Spec.encodeAll Spec.alignTable (endianOf true) ts vs 0 = some bs) (hfuel : depthAll vs ≤ fuel)
+    (henc : Spec.encodeAll Code.genAlign (endianOf true) ts vs 0 = some bs) (hfuel : depthAll vs ≤ fuel)
     (h : construct Gen.Message.tables (wireCodec fuel) na maxLen st (.methodCall a) = (st', .ok m)) :
     ∃ m' : Msg PyVal, parseMessage Gen.Message.tables (wireCodec fuel) m.raw (some fdl) = .ok m' ∧
       m'.cls = m.cls ∧ m'.serial = m.serial ∧ m'.expectReply = m.expectReply ∧ m'.autoStart = m.autoStart ∧
